@@ -730,7 +730,7 @@ pub fn v2_case(stream_name: &str, idx: u64, seed: u64, buf: &mut Vec<u8>) {
 pub fn tlv_streams(tier: Tier, unit: u64) -> Vec<StreamSpec> {
     let u = unit;
     vec![
-        if tier == Tier::Miri { stream("tlv-small-s", 300) } else { exhaustive("tlv-small", small_section_count(8)) },
+        if tier == Tier::Miri { stream("tlv-small-s", 300) } else { exhaustive("tlv-small", small_section_count(if tier == Tier::Thorough { 10 } else { 8 })) },
         stream("tlv-wf", tier.n(100, 20 * u, 3000 * u)),
         stream("tlv-sized", tier.n(20, 1 * u, 50 * u)),
         stream("tlv-rand", tier.n(100, 10 * u, 1500 * u)),
